@@ -84,6 +84,11 @@ def _swap_in_ctor(p, f, cls, r):
                 % (f.short, norm(s)[:40], norm(t)[:40]), {"function": f.short, "source<-": norm(s)[:40], "target<-": norm(t)[:40]})
         for ret in returns_of(f.node):
             r.check(ret.value is c or (isinstance(ret.value, ast.Name) and defs.single(ret.value.id) is c), f, ret, "the rebuilt alignment must be what is returned")
+        # a warp that is defined on a triangulation of its source must be inverted on the *same* triangulation
+        if p.lookup(cls, "trilist") is not None:
+            r.check(any(l in ("self.source.trilist", "self.trilist", "self._source.trilist") for l in ls), f, c,
+                    "%s: the inverse warp's source `%s` does not reuse the forward warp's triangle list: the target landmarks would be re-triangulated and interior "
+                    "points would not be mapped back" % (f.short, norm(s)[:50]), {"function": f.short, "source_reuses_trilist": True})
     return ctors
 
 
@@ -340,6 +345,8 @@ WITNESSES = [
             "NonUniformScale(1.0 / self.scale, skip_checks=True)", "NonUniformScale(self.scale, skip_checks=True)", rule="C04.R4", construct="NonUniformScale.pseudoinverse"),
     Witness("C04.W9", "menpo/transform/thinplatesplines.py", "ThinPlateSplines.has_true_inverse",
             "return False", "return True", rule="C04.R6", construct="ThinPlateSplines"),
+    Witness("C04.W10", "menpo/transform/piecewiseaffine/base.py", "AbstractPWA.pseudoinverse", "TriMesh(self.target.points, self.source.trilist)", "TriMesh(self.target.points)",
+            rule="C04.R2", construct="pseudoinverse", note="seeded change C04-A"),
     Witness("C04.T1", "menpo/transform/homogeneous/rotation.py", "Rotation.pseudoinverse",
             "np.linalg.inv(self.rotation_matrix)", "self.rotation_matrix.T", kind="T"),
 ]
